@@ -4,7 +4,7 @@ namespace Generated.CallbackSites
 
 /-- functions that call a callback object directly (`X._constructor(…)`, or in `_graph.py` a call of
     one of their own parameters) -/
-def invokers : List String := ["spox._graph.Graph._reconstruct", "spox._graph._trace"]
+def invokers : List String := ["spox._graph.Graph._reconstruct", "spox._graph.subgraph"]
 
 /-- functions that call `._reconstruct(…)` -/
 def reconstructCallers : List String := []
